@@ -5,6 +5,7 @@ import (
 	"fmt"
 	"math"
 	"math/big"
+	"runtime/debug"
 	"sort"
 	"time"
 
@@ -454,11 +455,17 @@ func checkC13(w *SketchWorld, slot int) (fails []mc.Fail) {
 
 // constructor menu of C13 (a plain enumeration, run once per check)
 func constructorShard() mc.Shard {
-	run := func(time.Time) *mc.Result {
-		res := &mc.Result{Scenario: "C13/constructors", Property: "C13", Exhaustive: true}
+	run := func(time.Time) (res *mc.Result) {
+		res = &mc.Result{Scenario: "C13/constructors", Property: "C13", Exhaustive: true}
 		fail := func(format string, a ...any) {
 			res.Violations = append(res.Violations, mc.Violation{Property: "C13", Clause: "C13.constructors", Scenario: "C13/constructors", Detail: fmt.Sprintf(format, a...), History: []string{fmt.Sprintf(format, a...)}})
 		}
+		defer func() {
+			if r := recover(); r != nil {
+				d := fmt.Sprintf("a constructor or decoder of the menu panicked: %v\n%s", r, debug.Stack())
+				res.Violations = append(res.Violations, mc.Violation{Property: "C13", Clause: "C13.no-panic", Scenario: "C13/constructors", Detail: d, History: []string{"constructor menu"}})
+			}
+		}()
 		type ctor struct {
 			name string
 			f    func(float64) error
